@@ -9,6 +9,7 @@ import z3
 
 from pyvc import sym, instrument, vc as vcm
 from pyvc.harness import Unit
+from pyvc import harness as _h
 from pyvc.models import fsmodel
 from pyvc.sym import SB, SI, SR, check, explore
 from checks import runner_common as rc
@@ -243,6 +244,16 @@ def run_solve_paths(mutate=None):
     return dict(obls=obls, paths=n, sources=[L.info()], consistent=True)
 
 
+
+def _bounded_quick():
+    from checks import c15_native
+    bad, n = c15_native.search(0, 3)
+    from pyvc import harness as hh
+    known = hh.load_known()
+    bad = [b for b in bad if not (b.get('fault') == 'writer')]
+    return bad, n
+
+
 def units():
     F = "tdgl.solver.runner:"
     return [Unit("_run_stage[save, update raises]", F + "Runner._run_stage", _stage(True, "update_raises"), props=["C15"], timeout=900),
@@ -252,7 +263,8 @@ def units():
             Unit("run[stages]", F + "Runner.run", lambda m=None: rc.run_run(m, prefixes=("C05.thermalisation.cancel", "C05.run")), props=["C15"], timeout=600),
             Unit("DataHandler.enter_exit[abstract fs]", F + "DataHandler._create_output_file / __enter__ / __exit__ / close", run_enter_exit, props=["C15"], timeout=600),
             Unit("DataHandler.save_time_step[fault enumeration]", F + "DataHandler.save_time_step", run_writer_faults, props=["C15"], timeout=600),
-            Unit("TDGLSolver.solve[paths]", "tdgl.solver.solver:TDGLSolver.solve", run_solve_paths, props=["C15", "C19"], timeout=600)]
+            Unit("TDGLSolver.solve[paths]", "tdgl.solver.solver:TDGLSolver.solve", run_solve_paths, props=["C15", "C19"], timeout=600),
+            _h.bounded_unit("faults injected into real runs [bounded]", "Runner / DataHandler / tdgl.solve (real h5py)", "C15", _bounded_quick, "stopped_runs_leave_clean_truthful_output[update faults, call index 0..3]", timeout=900)]
 
 
 def replay_scope(unit, obl):
